@@ -51,9 +51,9 @@ pub fn plan_for(prop: &str, tier: Tier, seed: u64, verif_dir: &str) -> Option<Pl
 			property: "C02".into(),
 			tier,
 			seed,
-			jobs: vec![job("lnsim", "forward", n(1500, 15000))],
+			jobs: vec![job("lnsim", "forward", n(1500, 15000)), job("lnsim", "offchain", n(2500, 30000))],
 			level: "exploration".into(),
-			rule: "profile `forward`: 3 real nodes in a line or triangle (1-4 channels, all three channel types), payments routed through a middle node (plus direct ones), each message delivered individually in a seeded order, claims/fails by the recipient, fee updates, disconnects, monitor writes completing late (async Persist) or via deferred ChainMonitor flush, crashes of any node between or inside API calls with in-flight monitor writes independently lost or surviving, restart from the latest ChannelManager snapshot (taken at seeded PersistMgr actions) and durable monitors, user force-closes; then settle (quiesce) and liquidate (close everything on a UTXO/mempool/script-verifying chain model, mine until all monitors drain, sweep). Oracles during the run: C02-3 forwarded HTLC matches an inbound HTLC and keeps at least the advertised fee and CLTV delta, C02-5 PaymentForwarded truthful; at the end: C02-W wealth (each node owns on chain at least what PaymentClaimed/PaymentForwarded/PaymentSent told it, less on-chain fees and its dust allowance), no library panic. One evaluation = one seeded run (config, schedule and faults all drawn from the run seed; replay executes the recorded action trace). non-trivial = the run executed at least one payment/HTLC to a terminal state or fired at least one fault; distinct = distinct FNV hash of the executed (action kind, actor) sequence.".into(),
+			rule: "profile `forward`: 3 real nodes in a line or triangle (1-4 channels, all three channel types), payments routed through a middle node (plus direct ones), each message delivered individually in a seeded order, claims/fails by the recipient, fee updates, disconnects, monitor writes completing late (async Persist) or via deferred ChainMonitor flush, crashes of any node between or inside API calls with in-flight monitor writes independently lost or surviving, restart from the latest ChannelManager snapshot (taken at seeded PersistMgr actions) and durable monitors, user force-closes; then settle (quiesce) and liquidate (close everything on a UTXO/mempool/script-verifying chain model, mine until all monitors drain, sweep). Oracles during the run: C02-3 forwarded HTLC matches an inbound HTLC and keeps at least the advertised fee and CLTV delta, C02-5 PaymentForwarded truthful, C02-6 dust exposure (for a node configured with MaxDustHTLCExposure::FixedLimitMsat, the HTLCs it offered that have no output on a commitment - the peer's or its own, as the BOLT-3 reference ledger trims them - never add up to more than the limit; checked at every commitment_signed, also in job `offchain`: 2-3 nodes, amounts at the trimming thresholds, no chain activity); at the end: C02-W wealth (each node owns on chain at least what PaymentClaimed/PaymentForwarded/PaymentSent told it, less on-chain fees and its dust allowance), no library panic. One evaluation = one seeded run (config, schedule and faults all drawn from the run seed; replay executes the recorded action trace). non-trivial = the run executed at least one payment/HTLC to a terminal state or fired at least one fault; distinct = distinct FNV hash of the executed (action kind, actor) sequence.".into(),
 			assumptions: t_assumptions.clone(),
 			probes: vec![],
 			exhaustive: false,
